@@ -420,7 +420,7 @@ func interleaving(got []byte, writers [][]string) bool {
 	return rec(got)
 }
 
-func plans(tier string) []mc.Plan {
+func basePlans(tier string) []mc.Plan {
 	var ps []mc.Plan
 	datas := []string{"AAxyz", "BBxyz", "A", "AA", ""}
 	stops := []string{"late-ctx", "ctx", "accept-error", "route-close"}
@@ -465,6 +465,16 @@ func upper(p []string) []string {
 		out = append(out, strings.ToUpper(s))
 	}
 	return out
+}
+
+// plans adds, to every scenario, a twin explored relative to the reversed default schedule (a
+// second reference schedule for the deviation bound).
+func plans(tier string) []mc.Plan {
+	ps := basePlans(tier)
+	if tier == "thorough" {
+		return mc.WithReversed(ps, 2)
+	}
+	return mc.WithReversed(ps, 1)
 }
 
 func init() {
